@@ -24,8 +24,10 @@ theorem rtInt32_mapCols (f : Nat → Nat) (tys tys' : List Ty) (e : Expr)
     have := h i (by simp [cols])
     simp only [mapCols, rtInt32, this]
   | .neg e =>
-    simp only [mapCols, rtInt32]
-    exact rtInt32_mapCols f tys tys' e (fun i hi => h i (by simpa [cols] using hi))
+    have ih := rtInt32_mapCols f tys tys' e (fun i hi => h i (by simpa [cols] using hi))
+    cases e with
+    | lit v => cases v <;> simp [mapCols, rtInt32]
+    | _ => simp only [mapCols, rtInt32] at ih ⊢ <;> exact ih
   | .pos e =>
     simp only [mapCols, rtInt32]
     exact rtInt32_mapCols f tys tys' e (fun i hi => h i (by simpa [cols] using hi))
@@ -36,7 +38,7 @@ theorem rtInt32_mapCols (f : Nat → Nat) (tys tys' : List Ty) (e : Expr)
     simp only [mapCols, rtInt32]
     exact rtInt32Results_mapCols f tys tys' parts (fun i hi => h i (by simp [cols, hi]))
   | .not _ | .and _ _ | .or _ _ | .cmp _ _ _ | .arith _ _ _ | .like _ _ _ | .isNull _ _ | .between _ _ _ _
-  | .inList _ _ _ | .strFn _ _ | .concat _ _ => simp [mapCols, rtInt32]
+  | .inList _ _ _ | .strFn _ _ | .concat _ _ | .nullif _ _ | .coalesce _ => simp [mapCols, rtInt32]
 theorem rtInt32Results_mapCols (f : Nat → Nat) (tys tys' : List Ty) (es : List Expr)
     (h : ∀ i ∈ colsList es, tys'.getD (f i) .bigint = tys.getD i .bigint) :
     rtInt32Results tys' (mapColsList f es) = rtInt32Results tys es := by
@@ -49,6 +51,103 @@ theorem rtInt32Results_mapCols (f : Nat → Nat) (tys tys' : List Ty) (es : List
     have hr := rtInt32_mapCols f tys tys' r (fun i hi => h i (by simp [colsList, hi]))
     have hs := rtInt32Results_mapCols f tys tys' rest (fun i hi => h i (by simp [colsList, hi]))
     simp only [mapColsList, rtInt32Results, hr, hs, isNullLit_mapCols]
+end
+
+mutual
+theorem inferTyO_mapCols (f : Nat → Nat) (tys tys' : List Ty) (e : Expr)
+    (h : ∀ i ∈ cols e, tys'.getD (f i) .bigint = tys.getD i .bigint) :
+    inferTyO tys' (mapCols f e) = inferTyO tys e := by
+  match e with
+  | .lit v => cases v <;> simp [mapCols, inferTyO]
+  | .col i =>
+    have := h i (by simp [cols])
+    simp only [mapCols, inferTyO, this]
+  | .neg a | .pos a =>
+    simp only [mapCols, inferTyO]
+    exact inferTyO_mapCols f tys tys' a (fun i hi => h i (by simpa [cols] using hi))
+  | .arith _ a b =>
+    have ha := inferTyO_mapCols f tys tys' a (fun i hi => h i (by simp [cols, hi]))
+    have hb := inferTyO_mapCols f tys tys' b (fun i hi => h i (by simp [cols, hi]))
+    simp only [mapCols, inferTyO, ha, hb]
+  | .caseWhen parts =>
+    simp only [mapCols, inferTyO]
+    exact inferResults_mapCols f tys tys' parts (fun i hi => h i (by simpa [cols] using hi))
+  | .caseOf x parts =>
+    simp only [mapCols, inferTyO]
+    exact inferResults_mapCols f tys tys' parts (fun i hi => h i (by simp [cols, hi]))
+  | .strFn g a => cases g <;> simp [mapCols, inferTyO]
+  | .nullif a b =>
+    simp only [mapCols, inferTyO]
+    exact inferTyO_mapCols f tys tys' a (fun i hi => h i (by simp [cols, hi]))
+  | .coalesce xs =>
+    simp only [mapCols, inferTyO]
+    exact inferFirst_mapCols f tys tys' xs (fun i hi => h i (by simpa [cols] using hi))
+  | .not _ | .and _ _ | .or _ _ | .cmp _ _ _ | .like _ _ _ | .isNull _ _ | .between _ _ _ _
+  | .inList _ _ _ | .concat _ _ => simp [mapCols, inferTyO]
+theorem inferResults_mapCols (f : Nat → Nat) (tys tys' : List Ty) (es : List Expr)
+    (h : ∀ i ∈ colsList es, tys'.getD (f i) .bigint = tys.getD i .bigint) :
+    inferResults tys' (mapColsList f es) = inferResults tys es := by
+  match es with
+  | [] => simp [mapColsList, inferResults]
+  | [e] =>
+    have he := inferTyO_mapCols f tys tys' e (fun i hi => h i (by simp [colsList, hi]))
+    simp only [mapColsList, inferResults, he]
+  | c :: r :: rest =>
+    have hr := inferTyO_mapCols f tys tys' r (fun i hi => h i (by simp [colsList, hi]))
+    have hs := inferResults_mapCols f tys tys' rest (fun i hi => h i (by simp [colsList, hi]))
+    simp only [mapColsList, inferResults, hr, hs]
+theorem inferFirst_mapCols (f : Nat → Nat) (tys tys' : List Ty) (es : List Expr)
+    (h : ∀ i ∈ colsList es, tys'.getD (f i) .bigint = tys.getD i .bigint) :
+    inferFirst tys' (mapColsList f es) = inferFirst tys es := by
+  match es with
+  | [] => simp [mapColsList, inferFirst]
+  | e :: es =>
+    have he := inferTyO_mapCols f tys tys' e (fun i hi => h i (by simp [colsList, hi]))
+    have hs := inferFirst_mapCols f tys tys' es (fun i hi => h i (by simp [colsList, hi]))
+    simp only [mapColsList, inferFirst, he, hs]
+end
+
+mutual
+theorem rtUnsigned_mapCols (f : Nat → Nat) (tys tys' : List Ty) (e : Expr)
+    (h : ∀ i ∈ cols e, tys'.getD (f i) .bigint = tys.getD i .bigint) :
+    rtUnsigned tys' (mapCols f e) = rtUnsigned tys e := by
+  match e with
+  | .col i =>
+    have := h i (by simp [cols])
+    simp only [mapCols, rtUnsigned, this]
+  | .pos a =>
+    simp only [mapCols, rtUnsigned]
+    exact rtUnsigned_mapCols f tys tys' a (fun i hi => h i (by simpa [cols] using hi))
+  | .arith _ a b =>
+    have ha := rtUnsigned_mapCols f tys tys' a (fun i hi => h i (by simp [cols, hi]))
+    have hb := rtUnsigned_mapCols f tys tys' b (fun i hi => h i (by simp [cols, hi]))
+    simp only [mapCols, rtUnsigned, ha, hb]
+  | .caseWhen parts =>
+    simp only [mapCols, rtUnsigned]
+    exact rtUnsignedResults_mapCols f tys tys' parts (fun i hi => h i (by simpa [cols] using hi))
+  | .caseOf x parts =>
+    simp only [mapCols, rtUnsigned]
+    exact rtUnsignedResults_mapCols f tys tys' parts (fun i hi => h i (by simp [cols, hi]))
+  | .nullif a b =>
+    have ha := inferTyO_mapCols f tys tys' a (fun i hi => h i (by simp [cols, hi]))
+    simp only [mapCols, rtUnsigned, inferTy, ha]
+  | .coalesce xs =>
+    have hx := inferFirst_mapCols f tys tys' xs (fun i hi => h i (by simpa [cols] using hi))
+    simp only [mapCols, rtUnsigned, hx]
+  | .lit _ | .neg _ | .not _ | .and _ _ | .or _ _ | .cmp _ _ _ | .like _ _ _ | .isNull _ _ | .between _ _ _ _
+  | .inList _ _ _ | .strFn _ _ | .concat _ _ => simp [mapCols, rtUnsigned]
+theorem rtUnsignedResults_mapCols (f : Nat → Nat) (tys tys' : List Ty) (es : List Expr)
+    (h : ∀ i ∈ colsList es, tys'.getD (f i) .bigint = tys.getD i .bigint) :
+    rtUnsignedResults tys' (mapColsList f es) = rtUnsignedResults tys es := by
+  match es with
+  | [] => simp [mapColsList, rtUnsignedResults]
+  | [e] =>
+    have he := rtUnsigned_mapCols f tys tys' e (fun i hi => h i (by simp [colsList, hi]))
+    simp only [mapColsList, rtUnsignedResults, he, isNullLit_mapCols]
+  | c :: r :: rest =>
+    have hr := rtUnsigned_mapCols f tys tys' r (fun i hi => h i (by simp [colsList, hi]))
+    have hs := rtUnsignedResults_mapCols f tys tys' rest (fun i hi => h i (by simp [colsList, hi]))
+    simp only [mapColsList, rtUnsignedResults, hr, hs, isNullLit_mapCols]
 end
 
 mutual
@@ -69,7 +168,8 @@ theorem eval_mapCols (f : Nat → Nat) (tys tys' : List Ty) (row row' : Row) (e 
   | .neg a =>
     have ha := eval_mapCols f tys tys' row row' a (fun i hi => h i (by simpa [cols] using hi))
     have hr := rtInt32_mapCols f tys tys' a (fun i hi => (h i (by simpa [cols] using hi)).2)
-    simp [mapCols, eval, ha, hr]
+    have hu := rtUnsigned_mapCols f tys tys' a (fun i hi => (h i (by simpa [cols] using hi)).2)
+    simp [mapCols, eval, ha, hr, hu]
   | .and a b =>
     have ha := eval_mapCols f tys tys' row row' a (fun i hi => h i (by simp [cols, hi]))
     have hb := eval_mapCols f tys tys' row row' b (fun i hi => h i (by simp [cols, hi]))
@@ -85,7 +185,9 @@ theorem eval_mapCols (f : Nat → Nat) (tys tys' : List Ty) (row row' : Row) (e 
   | .arith op a b =>
     have ha := eval_mapCols f tys tys' row row' a (fun i hi => h i (by simp [cols, hi]))
     have hb := eval_mapCols f tys tys' row row' b (fun i hi => h i (by simp [cols, hi]))
-    simp [mapCols, eval, ha, hb]
+    have hua := rtUnsigned_mapCols f tys tys' a (fun i hi => (h i (by simp [cols, hi])).2)
+    have hub := rtUnsigned_mapCols f tys tys' b (fun i hi => (h i (by simp [cols, hi])).2)
+    simp [mapCols, eval, ha, hb, hua, hub]
   | .like n a b =>
     have ha := eval_mapCols f tys tys' row row' a (fun i hi => h i (by simp [cols, hi]))
     have hb := eval_mapCols f tys tys' row row' b (fun i hi => h i (by simp [cols, hi]))
@@ -100,6 +202,15 @@ theorem eval_mapCols (f : Nat → Nat) (tys tys' : List Ty) (row row' : Row) (e 
     have ha := eval_mapCols f tys tys' row row' a (fun i hi => h i (by simp [cols, hi]))
     have hb := eval_mapCols f tys tys' row row' b (fun i hi => h i (by simp [cols, hi]))
     simp [mapCols, eval, ha, hb]
+  | .nullif a b =>
+    have ha := eval_mapCols f tys tys' row row' a (fun i hi => h i (by simp [cols, hi]))
+    have hb := eval_mapCols f tys tys' row row' b (fun i hi => h i (by simp [cols, hi]))
+    have ht := inferTyO_mapCols f tys tys' a (fun i hi => (h i (by simp [cols, hi])).2)
+    simp [mapCols, eval, ha, hb, inferTy, ht]
+  | .coalesce xs =>
+    have hx := evalList_mapCols f tys tys' row row' xs (fun i hi => h i (by simpa [cols] using hi))
+    have ht := inferFirst_mapCols f tys tys' xs (fun i hi => (h i (by simpa [cols] using hi)).2)
+    simp [mapCols, eval, hx, ht]
   | .between n a lo hi =>
     have ha := eval_mapCols f tys tys' row row' a (fun i hi => h i (by simp [cols, hi]))
     have hl := eval_mapCols f tys tys' row row' lo (fun i hi => h i (by simp [cols, hi]))
@@ -171,8 +282,9 @@ theorem mapCols_id (e : Expr) : mapCols (fun i => i) e = e := by
   match e with
   | .lit _ | .col _ => simp [mapCols]
   | .not a | .neg a | .pos a | .isNull _ a | .strFn _ a => simp [mapCols, mapCols_id a]
-  | .and a b | .or a b | .cmp _ a b | .arith _ a b | .like _ a b | .concat a b =>
+  | .and a b | .or a b | .cmp _ a b | .arith _ a b | .like _ a b | .concat a b | .nullif a b =>
     simp [mapCols, mapCols_id a, mapCols_id b]
+  | .coalesce xs => simp [mapCols, mapColsList_id xs]
   | .between _ a b c => simp [mapCols, mapCols_id a, mapCols_id b, mapCols_id c]
   | .inList _ a xs => simp [mapCols, mapCols_id a, mapColsList_id xs]
   | .caseWhen parts => simp [mapCols, mapColsList_id parts]
@@ -210,7 +322,8 @@ theorem holds_conjuncts (tys : List Ty) (r : Row) : ∀ (e : Expr), holds tys e 
     rw [holds_and, holds_conjuncts tys r a, holds_conjuncts tys r b]
     simp [conjuncts, List.all_append]
   | .lit _ | .col _ | .not _ | .neg _ | .pos _ | .or _ _ | .cmp _ _ _ | .arith _ _ _ | .like _ _ _ | .isNull _ _
-  | .between _ _ _ _ | .inList _ _ _ | .caseWhen _ | .caseOf _ _ | .strFn _ _ | .concat _ _ => by simp [conjuncts]
+  | .between _ _ _ _ | .inList _ _ _ | .caseWhen _ | .caseOf _ _ | .strFn _ _ | .concat _ _ | .nullif _ _
+  | .coalesce _ => by simp [conjuncts]
 
 theorem holds_foldl_and (tys : List Ty) (r : Row) (ps : List Expr) (acc : Expr) :
     holds tys (ps.foldl (fun a q => Expr.and a q) acc) r = (holds tys acc r && ps.all (holds tys · r)) := by
@@ -936,7 +1049,8 @@ theorem conjuncts_cols : ∀ (e0 e : Expr), e ∈ conjuncts e0 → ∀ i ∈ col
   | .lit _, e, he, i, hi | .col _, e, he, i, hi | .not _, e, he, i, hi | .neg _, e, he, i, hi | .pos _, e, he, i, hi
   | .or _ _, e, he, i, hi | .cmp _ _ _, e, he, i, hi | .arith _ _ _, e, he, i, hi | .like _ _ _, e, he, i, hi
   | .isNull _ _, e, he, i, hi | .between _ _ _ _, e, he, i, hi | .inList _ _ _, e, he, i, hi
-  | .caseWhen _, e, he, i, hi | .caseOf _ _, e, he, i, hi | .strFn _ _, e, he, i, hi | .concat _ _, e, he, i, hi => by
+  | .caseWhen _, e, he, i, hi | .caseOf _ _, e, he, i, hi | .strFn _ _, e, he, i, hi | .concat _ _, e, he, i, hi
+  | .nullif _ _, e, he, i, hi | .coalesce _, e, he, i, hi => by
     simp only [conjuncts, List.mem_singleton] at he
     subst he
     exact hi
